@@ -597,6 +597,24 @@ add({"name": "gz_inflate_loop", "file": "dfs/img_gzfile.cc",
                (r"\bdo\b(\s*\{\s*stream\.next_out)", r"do GZ_INNER_CONTRACT\1", 1)],
      "dropped": ["static_asserts on buffer sizes"]})
 
+# ---- cmd_dump.cc (C04): dump-sector's argument check and address computation -----------------------------------------
+add({"name": "dump_get_arg", "file": "dfs/cmd_dump.cc",
+     "anchor": r"std::optional<long int> get_arg\(const std::string& which_arg,\s*const std::string& the_arg,\s*const long int upper_limit\)",
+     "sig": "static struct opt_long dump_get_arg(const struct argstr *the_arg, const long int upper_limit)",
+     "rules": [(r"\btry\b", "/* guarded block: handler below */", 1),
+               (r"n = std::stol\(the_arg, &end, 10\);", "n = stol_model(the_arg, &end); if (g_exc) { struct opt_long none_; none_.has = 0; none_.val = 0; return none_; } if (g_stol_out_of_range) goto out_of_range_;", 1),
+               (r"catch \(std::out_of_range& e\)\s*\{\s*\};", "out_of_range_: ;  /* the out_of_range handler: report as for n > upper_limit */", 1),
+               (r"the_arg\.size\(\)", "the_arg->n", ">=1"),
+               (r"std::cerr << which_arg << \" \" << the_arg[^;]*;", "g_diag++;  /* diagnostic text dropped */", ">=1"),
+               (r"return std::nullopt;", "{ struct opt_long none_; none_.has = 0; none_.val = 0; return none_; }", ">=1"),
+               (r"return n;", "{ struct opt_long some_; some_.has = 1; some_.val = n; return some_; }", 1)],
+     "dropped": ["diagnostic texts"]})
+add({"name": "dump_sector_addr", "file": "dfs/cmd_dump.cc",
+     "anchor": r"const sector_count_type sec_addr = ", "region_end": r"auto got = drive->read_block\(sec_addr\);",
+     "sig": "static sector_count_type dump_sector_addr(struct opt_long track, struct opt_long sector, const struct Geometry *geom_)",
+     "region_epilogue": "return sec_addr;\n",
+     "rules": [(r"\(\*track\)", "(track.val)", 1), (r"\(\*sector\)", "(sector.val)", 1), (r"geom\.sectors", "geom_->sectors", 1)]})
+
 # ---- cmd_cat.cc: column tracking of the catalogue listing (C19: computations next to / inside asserts) -----------------
 add({"name": "colstream_tab", "file": "dfs/cmd_cat.cc", "anchor": r"void tab\(\)",
      "sig": "static void colstream_tab(struct colstream *self)",
